@@ -16,6 +16,7 @@ PROP = dict(
                  "(what Time.From produces); pdu.Duration values are multiples of 0.1 s"],
 )
 GEN = {"octets": "Gen/Octets.v"}
+SETUP = [["tools/build_extract.sh"]]   # extracted OCaml models -> .work/ocaml/ (used by the thorough tier)
 ENGINE = {"name": "scalar", "path": "coq/Model/Flags.v coq/Model/SmppTime.v coq/Model/Civil.v coq/Spec/SmppTimeSpec.v harness/c20.go harness/c20_time.go harness/c20_extract.go coq/Extract/C20Extract.v ocaml/c20_driver.ml",
           "serves_properties": ["C20"],
           "kind_free_text": "Coq model + exhaustive octet tables regenerated from the code + kernel sweep over the 36,525 days of 2000-2099 + "
@@ -33,6 +34,6 @@ MANIFEST = dict(
          "standard says it denotes), C20_time_neg_zero_refuted / C20_time_neg_zero_class (D29: exactly that class comes back with '+'), "
          "C20_duration (every multiple of 0.1 s in [1 s, 100*8760 h)), C20_time_parse_total (no panic, acceptance shape).",
     note="Trusted: Coq kernel + vm_compute; the Go table dumper and harness; the hand-written model of pdu/time.go and of the Go library "
-         "functions it calls (time.Date, accessors, strconv.ParseInt, fmt verbs), tied by ~64k kernel-evaluated cases per quick run over the "
+         "functions it calls (time.Date, accessors, strconv.ParseInt, fmt verbs), tied by ~25k kernel-evaluated cases per quick run (~174k thorough, plus ~660k lines through the extracted model) over the "
          "full boundary product + random points. Known finding D29 (KNOWN_FINDINGS.txt). No axioms (Print Assumptions: closed under the global context).",
 )
